@@ -3,7 +3,7 @@
    decoder's zoom_level, which returns exactly those records, provided the records are what the
    decoder demands (one chromosome per section, start < end <= chromosome length, covered bases
    <= width, in order and disjoint) and fit their fields. *)
-From BT Require Import Base.Util Base.LE Base.Float Generated.Consts Model.RTree Model.BBIFile Model.BigWigWrite
+From BT Require Import Base.Util Base.LE Base.Float Generated.Consts Model.RTree Model.BBIFile Model.BigWigWrite Model.BigWigWriteZ
   Proofs.Chunks Proofs.RTreeAbs Proofs.RTreeBuild Proofs.RTreeCodec Proofs.FileRegions
   Proofs.BigWigFile Proofs.BigWigFileData
   Spec.FormatDecode Proofs.C09Base Proofs.C09Codec Proofs.C09Chrom Proofs.C09RTree Proofs.C09Data.
@@ -65,12 +65,14 @@ Proof.
 Qed.
 
 (* ---------- one zoom block ---------- *)
-Lemma zoom_block_ok img n inflate chroms ips fp rs s :
-  n = Nlen img -> placed img s (zpsec fp rs) -> zsec_good ips rs -> Forall (zrec_good chroms) rs ->
+Lemma zoom_block_gen img n inflate chroms ubuf ips fp rs s :
+  block_bytes img n inflate ubuf (lf_of s) = Some (sd_bytes (zpsec fp rs)) ->
+  s_chrom s = sd_chrom (zpsec fp rs) -> s_start s = sd_start (zpsec fp rs) -> s_end s = sd_end (zpsec fp rs) ->
+  zsec_good ips rs -> Forall (zrec_good chroms) rs ->
   StronglySorted zrec_lt rs ->
-  zoom_block img n false inflate true chroms 0 ips (lf_of s) = Some (map (zr_view fp) rs).
+  zoom_block img n false inflate true chroms ubuf ips (lf_of s) = Some (map (zr_view fp) rs).
 Proof.
-  intros Hn (Hat & Hsz & Hc & Hs & He) (Hne & Hlen & Hsame) Hgood Hsorted.
+  intros Hbytes Hc Hs He (Hne & Hlen & Hsame) Hgood Hsorted.
   destruct rs as [|f r] eqn:Er; [congruence|]. rewrite <- Er in *.
   assert (Hf : In f rs) by (subst rs; now left).
   assert (Hhd : hd_error rs = Some f) by (subst rs; reflexivity).
@@ -81,9 +83,8 @@ Proof.
   assert (Est : sd_start (zpsec fp rs) = z_start f) by (subst rs; reflexivity).
   assert (Een : sd_end (zpsec fp rs) = z_end (last rs f)) by (subst rs; reflexivity).
   rewrite Forall_forall in Hgood. destruct (Hgood f Hf) as (_ & _ & _ & (len & Hcs & _)).
-  unfold zoom_block, block_bytes. change (0 =? 0) with true. cbv iota.
+  unfold zoom_block. rewrite Hbytes. cbn [obind].
   cbn [lf_of fl_off fl_size fl_span fsp p_sc p_sb p_eb sect_span sc sb eb].
-  rewrite (bytes_at_has_w img n (s_off s) _ (s_size s) Hat Hn Hsz). cbn [obind].
   rewrite Hc, Ech, Hcs. cbn [obind]. rewrite Hbl.
   assert (Hdiv : 32 * Nlen rs / 32 = Nlen rs) by (rewrite N.mul_comm; apply N.div_mul; lia).
   assert (Hmod : (32 * Nlen rs) mod 32 = 0) by (rewrite N.mul_comm; apply N.mod_mul; lia).
@@ -105,6 +106,19 @@ Proof.
   rewrite !andb_true_iff. repeat split; try (apply N.leb_le; lia). apply N.ltb_lt. lia.
 Qed.
 
+Lemma zoom_block_c compress c img n inflate chroms ubuf ips fp rs s :
+  n = Nlen img -> placed img s (zsec compress c (zpsec fp rs)) -> blk_mode c ubuf ->
+  (c = true -> inflate_ok compress img inflate /\ Nlen (sd_bytes (zpsec fp rs)) <= ubuf) ->
+  zsec_good ips rs -> Forall (zrec_good chroms) rs -> StronglySorted zrec_lt rs ->
+  zoom_block img n false inflate true chroms ubuf ips (lf_of s) = Some (map (zr_view fp) rs).
+Proof.
+  intros Hn Hpl Hm Hc Hg1 Hg2 Hg3.
+  pose proof (block_bytes_c compress c img n inflate ubuf s (zpsec fp rs) Hn Hpl Hm Hc) as Hb.
+  destruct Hpl as (_ & _ & E1 & E2 & E3). destruct (zsec_spans compress c (zpsec fp rs)) as (Z1 & Z2 & Z3).
+  rewrite Z1 in E1. rewrite Z2 in E2. rewrite Z3 in E3.
+  exact (zoom_block_gen img n inflate chroms ubuf ips fp rs s Hb E1 E2 E3 Hg1 Hg2 Hg3).
+Qed.
+
 (* ---------- the sections of a level, placed ---------- *)
 Definition zsecs (fp : fpmode) (rsecs : list (list zrec)) : list sdata := map (zpsec fp) rsecs.
 
@@ -113,9 +127,14 @@ Proof. destruct rs; [reflexivity|]. cbn [zpsec sd_bytes]. unfold Nlen. rewrite z
 
 Section Level.
 Variables (fp : fpmode) (chroms : list fchrom) (ips : N) (rsecs : list (list zrec)).
+Variables (compress : list N -> list N) (c : bool) (ubuf : N).
 Hypothesis Hsecs : Forall (zsec_good ips) rsecs.
 Hypothesis Hgood : Forall (zrec_good chroms) (concat rsecs).
 Hypothesis Hsorted : StronglySorted zrec_lt (concat rsecs).
+Hypothesis Hcne : forall b, compress b <> [].
+
+(* the sections as they are written: compressed when [c] *)
+Definition wsecs : list sdata := map (zsec compress c) (zsecs fp rsecs).
 
 Lemma lvl_in_concat rs r : In rs rsecs -> In r rs -> In r (concat rsecs).
 Proof. intros H1 H2. apply in_concat. exists rs. split; assumption. Qed.
@@ -127,30 +146,44 @@ Proof.
   apply IH; [eapply SSorted_app_r; exact Hs|exact Hin].
 Qed.
 
-Lemma lvl_blocks img n inflate : n = Nlen img -> forall ss, Forall2 (placed img) ss (zsecs fp rsecs) ->
-  omap (zoom_block img n false inflate true chroms 0 ips) (map lf_of ss) = Some (map (map (zr_view fp)) rsecs).
+Lemma lvl_blocks img n inflate : n = Nlen img -> blk_mode c ubuf ->
+  (c = true -> inflate_ok compress img inflate /\ Forall (fun rs => 32 * Nlen rs <= ubuf) rsecs) ->
+  forall ss, Forall2 (placed img) ss wsecs ->
+  omap (zoom_block img n false inflate true chroms ubuf ips) (map lf_of ss) = Some (map (map (zr_view fp)) rsecs).
 Proof.
-  intros ->. set (n := Nlen img). assert (Hn : n = Nlen img) by reflexivity. clearbody n.
-  assert (G : forall l ss, (forall rs, In rs l -> In rs rsecs) -> Forall2 (placed img) ss (zsecs fp l) ->
-              omap (zoom_block img n false inflate true chroms 0 ips) (map lf_of ss) = Some (map (map (zr_view fp)) l)).
+  intros -> Hm Hc. set (n := Nlen img). assert (Hn : n = Nlen img) by reflexivity. clearbody n.
+  assert (G : forall l ss, (forall rs, In rs l -> In rs rsecs) -> Forall2 (placed img) ss (map (zsec compress c) (zsecs fp l)) ->
+              omap (zoom_block img n false inflate true chroms ubuf ips) (map lf_of ss) = Some (map (map (zr_view fp)) l)).
   { induction l as [|rs l IH]; intros ss Hsub HF; inversion HF as [|s d ss' ds' Hsd HF' E1 E2]; subst ss; [reflexivity|].
     cbn [map omap]. rewrite Forall_forall in Hsecs, Hgood.
-    rewrite (zoom_block_ok img n inflate chroms ips fp rs s Hn Hsd (Hsecs rs (Hsub rs (or_introl eq_refl)))).
+    rewrite (zoom_block_c compress c img n inflate chroms ubuf ips fp rs s Hn Hsd Hm).
     - cbn [obind]. rewrite (IH ss' (fun x Hx => Hsub x (or_intror Hx)) HF'). reflexivity.
+    - intros Ec. destruct (Hc Ec) as [Hi Hu]. split; [exact Hi|]. rewrite zsec_bytes_len.
+      rewrite Forall_forall in Hu. apply Hu. apply Hsub. now left.
+    - exact (Hsecs rs (Hsub rs (or_introl eq_refl))).
     - apply Forall_forall. intros r Hr. apply Hgood. eapply lvl_in_concat; [apply Hsub; now left|exact Hr].
     - apply lvl_sec_sorted. apply Hsub. now left. }
   intros ss. apply G. auto.
 Qed.
 
+Lemma wsec_size rs : rs <> [] -> 1 <= Nlen (sd_bytes (zsec compress c (zpsec fp rs))).
+Proof.
+  intros Hne. destruct c; cbn [zsec sd_bytes].
+  - specialize (Hcne (sd_bytes (zpsec fp rs))). destruct (compress _); [congruence|]. rewrite Nlen_cons. lia.
+  - rewrite zsec_bytes_len. destruct rs; [congruence|]. rewrite Nlen_cons. lia.
+Qed.
+
 (* spans of the placed sections *)
 Lemma lvl_sect_facts pos : Forall (fun s => s_start s <= s_end s /\ 1 <= s_size s /\ s_chrom s < U32 /\ s_start s < U32 /\ s_end s < U32)
-                                  (place pos (zsecs fp rsecs)).
+                                  (place pos wsecs).
 Proof.
   assert (G : forall l pos, (forall rs, In rs l -> In rs rsecs) ->
-     Forall (fun s => s_start s <= s_end s /\ 1 <= s_size s /\ s_chrom s < U32 /\ s_start s < U32 /\ s_end s < U32) (place pos (zsecs fp l))).
+     Forall (fun s => s_start s <= s_end s /\ 1 <= s_size s /\ s_chrom s < U32 /\ s_start s < U32 /\ s_end s < U32)
+            (place pos (map (zsec compress c) (zsecs fp l)))).
   { induction l as [|rs l IH]; intros p Hsub; [constructor|]. cbn [zsecs map place]. constructor.
-    - cbn [s_start s_end s_size s_chrom]. rewrite zsec_bytes_len.
+    - cbn [s_start s_end s_size s_chrom]. destruct (zsec_spans compress c (zpsec fp rs)) as (-> & -> & ->).
       pose proof (Hsub rs (or_introl eq_refl)) as Hin. rewrite Forall_forall in Hsecs. destruct (Hsecs rs Hin) as (Hne & _ & Hsame).
+      pose proof (wsec_size rs Hne) as Hsz.
       destruct rs as [|f r] eqn:Er; [congruence|]. rewrite <- Er in *.
       assert (Hf : In f rs) by (subst rs; now left).
       assert (Hl : In (last rs f) rs) by (apply last_in; exact Hne).
@@ -163,23 +196,24 @@ Proof.
       { intros x Hx. apply (Hsame f x); [subst rs; now right|subst rs; reflexivity]. }
       pose proof (lvl_sec_sorted rs Hin) as Hso. subst rs.
       pose proof (sorted_last_end r f Hso Hpos Hsame' f (or_introl eq_refl)) as Hle.
-      cbn [zpsec sd_start sd_end sd_chrom]. rewrite Nlen_cons. unfold U32, W32 in *. repeat split; lia.
+      repeat split; try exact Hsz; unfold zpsec; cbn [sd_start sd_end sd_chrom]; unfold U32, W32 in *; lia.
     - apply IH. intros x Hx. apply Hsub. now right. }
   apply G. auto.
 Qed.
 
 (* the first records of later sections are later records: the placed sections are sorted *)
-Lemma lvl_sorted pos : sorted_starts (map sect_span (place pos (zsecs fp rsecs))).
+Lemma lvl_sorted pos : sorted_starts (map sect_span (place pos wsecs)).
 Proof.
-  rewrite place_spans. unfold zsecs. rewrite map_map. unfold sorted_starts.
+  rewrite place_spans. unfold wsecs, zsecs. rewrite !map_map. unfold sorted_starts.
   assert (G : forall l, (forall rs, In rs l -> In rs rsecs) -> StronglySorted zrec_lt (concat l) ->
-     StronglySorted start_le (map (fun rs => {| sc := sd_chrom (zpsec fp rs); sb := sd_start (zpsec fp rs);
-                                                 ec := sd_chrom (zpsec fp rs); eb := sd_end (zpsec fp rs) |}) l)).
+     StronglySorted start_le (map (fun rs => {| sc := sd_chrom (zsec compress c (zpsec fp rs)); sb := sd_start (zsec compress c (zpsec fp rs));
+                                                 ec := sd_chrom (zsec compress c (zpsec fp rs)); eb := sd_end (zsec compress c (zpsec fp rs)) |}) l)).
   { induction l as [|rs l IH]; intros Hsub Hs; [constructor|]. cbn [map concat] in *. constructor.
     - apply IH; [intros x Hx; apply Hsub; now right|eapply SSorted_app_r; exact Hs].
     - rewrite Forall_map. apply Forall_forall. intros rs' Hrs'.
       rewrite Forall_forall in Hsecs.
       destruct (Hsecs rs (Hsub rs (or_introl eq_refl))) as (Hne & _). destruct (Hsecs rs' (Hsub rs' (or_intror Hrs'))) as (Hne' & _).
+      destruct (zsec_spans compress c (zpsec fp rs)) as (-> & -> & _). destruct (zsec_spans compress c (zpsec fp rs')) as (-> & -> & _).
       destruct rs as [|f r]; [congruence|]. destruct rs' as [|f' r']; [congruence|].
       unfold start_le, ple. cbn [zpsec sd_chrom sd_start sc sb].
       assert (Hlt : zrec_lt f f').
@@ -192,7 +226,7 @@ Qed.
 
 Lemma lvl_recs_order : adjacent zrec_order (map (zr_view fp) (concat rsecs)) = true.
 Proof.
-  clear Hsecs Hgood. revert Hsorted. generalize (concat rsecs). intros l0 Hs0.
+  clear Hsecs Hgood Hcne. revert Hsorted. generalize (concat rsecs). intros l0 Hs0.
   induction Hs0 as [|x l Hs IH Hf]; [reflexivity|]. cbn [map]. destruct l as [|y l]; [reflexivity|].
   cbn [map] in *. rewrite adjacent_cons, IH, andb_true_r. apply Forall_inv in Hf.
   unfold zrec_order. cbn [zr_view zr_chrom zr_end zr_start].
@@ -237,20 +271,23 @@ Proof.
 Qed.
 
 (* ---------- one zoom level, data + index ---------- *)
-Lemma zoom_level_ok img n inflate fp chroms b ips rsecs res pos ix lv :
+Lemma zoom_level_ok img n inflate fp chroms b ips rsecs compress c ubuf res pos ix lv :
   n = Nlen img -> n < W64 -> 2 <= b <= 65535 -> 1 <= ips <= 65535 ->
   Forall (zsec_good ips) rsecs -> Forall (zrec_good chroms) (concat rsecs) -> StronglySorted zrec_lt (concat rsecs) ->
-  has_at img pos (data_bytes (zsecs fp rsecs)) ->
-  write_index b ips (pos + Nlen (data_bytes (zsecs fp rsecs))) (place pos (zsecs fp rsecs)) = Ok (ix, lv) ->
-  has_at img (pos + Nlen (data_bytes (zsecs fp rsecs))) ix ->
-  exists e, zoom_level img n false inflate true chroms 0
-              {| fz_level := res; fz_reserved := 0; fz_data := pos; fz_index := pos + Nlen (data_bytes (zsecs fp rsecs)) |}
-            = Some (res, map (zr_view fp) (concat rsecs), (pos, pos + Nlen (data_bytes (zsecs fp rsecs))),
-                    (pos + Nlen (data_bytes (zsecs fp rsecs)), e))
-    /\ pos + Nlen (data_bytes (zsecs fp rsecs)) + 48 <= e <= pos + Nlen (data_bytes (zsecs fp rsecs)) + Nlen ix.
+  (forall x, compress x <> []) -> blk_mode c ubuf ->
+  (c = true -> inflate_ok compress img inflate /\ Forall (fun rs => 32 * Nlen rs <= ubuf) rsecs) ->
+  let secs := wsecs fp rsecs compress c in
+  has_at img pos (data_bytes secs) ->
+  write_index b ips (pos + Nlen (data_bytes secs)) (place pos secs) = Ok (ix, lv) ->
+  has_at img (pos + Nlen (data_bytes secs)) ix ->
+  exists e, zoom_level img n false inflate true chroms ubuf
+              {| fz_level := res; fz_reserved := 0; fz_data := pos; fz_index := pos + Nlen (data_bytes secs) |}
+            = Some (res, map (zr_view fp) (concat rsecs), (pos, pos + Nlen (data_bytes secs)),
+                    (pos + Nlen (data_bytes secs), e))
+    /\ pos + Nlen (data_bytes secs) + 48 <= e <= pos + Nlen (data_bytes secs) + Nlen ix.
 Proof.
-  intros Hn Hn64 Hb Hi Hsecs Hgood Hsorted Hdat Hix Hixat.
-  set (secs := zsecs fp rsecs) in *. set (zsize := Nlen (data_bytes secs)) in *.
+  intros Hn Hn64 Hb Hi Hsecs Hgood Hsorted Hcne Hm Hc secs Hdat Hix Hixat.
+  set (zsize := Nlen (data_bytes secs)) in *.
   unfold zoom_level. cbn [fz_reserved fz_data fz_index fz_level].
   rewrite check_true by (rewrite N.eqb_refl; cbn [andb]; apply N.leb_le; lia).
   pose proof (has_at_bound img _ _ Hixat) as Hixb. rewrite <- Hn in Hixb.
@@ -262,13 +299,14 @@ Proof.
     rewrite (parse_index_empty img n (pos + 0) pos (pos + 0) b ips Hixat Hn) by (unfold W32, W64 in *; lia).
     cbn [obind omap concat map adjacent]. rewrite check_true by reflexivity.
     eexists. split; [reflexivity|]. unfold Nlen. rewrite app_length, RTreeLayout.index_header_length. cbn [leaf_bytes length u8 u16 enc_le app flat_map]. lia.
-  - assert (Hne : secs <> []) by (unfold secs, zsecs; intros E; apply map_eq_nil in E; contradiction).
-    pose proof (lvl_sect_facts fp chroms ips rsecs Hsecs Hgood Hsorted pos) as Hfacts. fold secs in Hfacts.
+  - assert (Hne : secs <> []).
+    { unfold secs, wsecs, zsecs. intros E. apply map_eq_nil in E. apply map_eq_nil in E. contradiction. }
+    pose proof (lvl_sect_facts fp chroms ips rsecs compress c Hsecs Hgood Hsorted Hcne pos) as Hfacts. fold secs in Hfacts.
     pose proof (place_bounds secs pos) as Hbounds. fold zsize in Hbounds.
     destruct (parse_index_ok img n (pos + zsize) pos (pos + zsize) b ips (place pos secs) ix lv Hix Hixat Hn Hn64 Hb
                 ltac:(unfold W32; lia)) as (h & e & Hparse & _ & Hips & _ & He).
     + intros E. apply place_nil_iff in E. exact (Hne E).
-    + exact (lvl_sorted fp chroms ips rsecs Hsecs Hgood Hsorted pos).
+    + exact (lvl_sorted fp chroms ips rsecs compress c Hsecs Hgood Hsorted pos).
     + apply Forall_forall. intros s Hs. rewrite Forall_forall in Hfacts, Hbounds.
       destruct (Hfacts s Hs) as (_ & _ & F1 & F2 & F3). destruct (Hbounds s Hs) as [B1 B2].
       unfold sect_ok. unfold U64, W64 in *. repeat split; try assumption; lia.
@@ -278,7 +316,7 @@ Proof.
       destruct (Hfacts s Hs) as (F0 & F1 & _). destruct (Hbounds s Hs) as [B1 B2]. repeat split; assumption.
     + apply place_offs_chain.
     + rewrite Hparse. cbn [obind]. rewrite Hips.
-      rewrite (lvl_blocks fp chroms ips rsecs Hsecs Hgood Hsorted img n inflate Hn (place pos secs) (place_placed img secs pos Hdat)).
+      rewrite (lvl_blocks fp chroms ips rsecs compress c ubuf Hsecs Hgood Hsorted img n inflate Hn Hm Hc (place pos secs) (place_placed img secs pos Hdat)).
       cbn [obind]. rewrite concat_map_map.
       rewrite check_true by (exact (lvl_recs_order fp rsecs Hsorted)).
       exists e. split; [reflexivity|exact He].
